@@ -332,6 +332,12 @@ func (kr *kindRules) vkinds(v ssa.Value) KindSet {
 	if a == nil {
 		return 0
 	}
+	// definitely vertical: a may-set that also holds horizontal kinds comes from a
+	// helper shared between the axes (its parameter joins the kinds of all call
+	// sites); which axis reaches this instruction is then not known
+	if a.Scalar&^vfam&ks(kX, kY, kLON, kLAT, kHZ, kQK) != 0 {
+		return 0
+	}
 	return a.Scalar & vfam
 }
 
